@@ -129,7 +129,105 @@ class SourceTree:
                 out[n.targets[0].id] = n.value
             elif isinstance(n, ast.AnnAssign) and isinstance(n.target, ast.Name) and n.value is not None:
                 out[n.target.id] = n.value
+        # names updated again at module level (X *= ...) have no single defining expression: opaque symbol
+        for n in mod.body:
+            if isinstance(n, ast.AugAssign) and isinstance(n.target, ast.Name) and n.target.id in out:
+                out[n.target.id] = ast.Call(func=ast.Name(id='__opaque__', ctx=ast.Load()), args=[], keywords=[])
         return out
+
+    def eval_const(self, rel, name, _depth=0):
+        """Concrete (Python float) value of a module-level numeric constant, obtained by interpreting the module's own
+        initialiser statements in order (closed arithmetic over literals, math functions and imported constants)."""
+        import math
+        if _depth > 12:
+            raise ValueError('constant resolution too deep')
+        mod = self.module(rel)
+        env = {}
+        imports = getattr(mod, 'imports', {})
+        defs = self.def_consts(rel)
+
+        def lookup(nm):
+            if nm in env:
+                return env[nm]
+            if nm in defs:
+                return defs[nm]
+            mc = {'M_PI': math.pi, 'pi': math.pi, 'M_SQRT2': math.sqrt(2.0), 'M_E': math.e, 'M_1_PI': 1 / math.pi,
+                  'M_LN2': math.log(2.0)}
+            if nm in imports:
+                origin = imports[nm]
+                short = origin.split('.')[-1]
+                if origin.startswith('libc.math.') or origin.startswith('math.') or origin.startswith('numpy.'):
+                    if short in mc:
+                        return mc[short]
+                    if hasattr(math, short):
+                        return getattr(math, short)
+                modpath = origin.rsplit('.', 1)[0]
+                for root in (self.root, RAYSECT_ROOT):
+                    for ext in ('.pyx', '.py', '/__init__.py'):
+                        p = os.path.join(root, modpath.replace('.', '/') + ext)
+                        if os.path.exists(p):
+                            try:
+                                return self.eval_const(p, short, _depth + 1)
+                            except KeyError:
+                                sub = getattr(self.module(p), 'imports', {})
+                                if short in sub:
+                                    sp = sub[short].rsplit('.', 1)[0]
+                                    for root2 in (self.root, RAYSECT_ROOT):
+                                        for ext2 in ('.pyx', '.py'):
+                                            p2 = os.path.join(root2, sp.replace('.', '/') + ext2)
+                                            if os.path.exists(p2):
+                                                return self.eval_const(p2, short, _depth + 1)
+            if nm in mc:
+                return mc[nm]
+            if hasattr(math, nm):
+                return getattr(math, nm)
+            raise KeyError(nm)
+
+        def ev(e):
+            if isinstance(e, ast.Constant) and isinstance(e.value, (int, float)):
+                return e.value
+            if isinstance(e, ast.Name):
+                return lookup(e.id)
+            if isinstance(e, ast.Attribute) and isinstance(e.value, ast.Name) and e.value.id in ('np', 'math', 'numpy'):
+                return lookup(e.attr)
+            if isinstance(e, ast.BinOp):
+                a, b = ev(e.left), ev(e.right)
+                t = type(e.op)
+                if t is ast.Add:
+                    return a + b
+                if t is ast.Sub:
+                    return a - b
+                if t is ast.Mult:
+                    return a * b
+                if t is ast.Div:
+                    return a / b
+                if t is ast.Pow:
+                    return a ** b
+            if isinstance(e, ast.UnaryOp) and isinstance(e.op, ast.USub):
+                return -ev(e.operand)
+            if isinstance(e, ast.Call):
+                f = ev(e.func)
+                if callable(f):
+                    return f(*[ev(a) for a in e.args])
+            raise ValueError('not closed arithmetic: %s' % ast.dump(e)[:80])
+        found = False
+        for n in mod.body:
+            if isinstance(n, ast.Assign) and len(n.targets) == 1 and isinstance(n.targets[0], ast.Name):
+                tgt, val = n.targets[0].id, n.value
+            elif isinstance(n, ast.AnnAssign) and isinstance(n.target, ast.Name) and n.value is not None:
+                tgt, val = n.target.id, n.value
+            elif isinstance(n, ast.AugAssign) and isinstance(n.target, ast.Name):
+                if n.target.id == name:
+                    env[name] = ev(ast.BinOp(left=ast.Name(id=name, ctx=ast.Load()), op=n.op, right=n.value))
+                continue
+            else:
+                continue
+            if tgt == name:
+                env[name] = ev(val)
+                found = True
+        if not found:
+            raise KeyError(name)
+        return env[name]
 
     # ---- class index
     def classes(self):
@@ -170,6 +268,18 @@ class SourceTree:
         ent = idx.get(name)
         if ent is None:
             return None
+        pref = getattr(self, 'prefer_stem', None)
+        if pref is not None and any(f.rsplit('.', 1)[0] == pref for f in ent['files']):
+            # the file under verification defines a class of this name: it wins over same-named classes elsewhere
+            cache = ent.setdefault('by_stem', {})
+            if pref not in cache:
+                info = ClassInfo(name, os.path.relpath(pref, self.root))
+                for f in sorted([f for f in ent['files'] if f.rsplit('.', 1)[0] == pref], key=lambda x: (not x.endswith('.pxd'), x)):
+                    for n in self.module(f).body:
+                        if isinstance(n, ast.ClassDef) and n.name == name:
+                            self._merge_class(info, n, f)
+                cache[pref] = info
+            return cache[pref]
         if ent['info'] is not None:
             return ent['info']
         files = ent['files']
